@@ -39,6 +39,8 @@ def bag(terms):
 def judge(ev, obs, gens_before):
     """Requirement verdict for one action."""
     if 'error' in obs:
+        if ev['op'].endswith('-fault'):
+            return None     # the injected I/O error surfaced: a loud failure is fine
         if ev['op'] == 'perftrack' and obs['error'].startswith('TopologyError'):
             # the evaluation composition is refused loudly (fan-out/fan-in pipelines: 'Ambiguous tail' when the apply
             # segment is re-traced from the placeholder head); nothing is loaded, the property is silent - see DESIGN.md
